@@ -1,7 +1,6 @@
 package props
 
 import (
-	"context"
 	"encoding/json"
 	"fmt"
 	"regexp"
@@ -73,7 +72,9 @@ func evalTree(sc *formula.SourceCode, data val.V) string {
 	r.SetThis(m)
 	var v interface{}
 	var err error
-	p, pv := core.Call(func() { v, err = r.Resolve(context.Background(), sc.Expression) })
+	ctx, release := hostCtxFor(sc)
+	defer release()
+	p, pv := core.Call(func() { v, err = r.Resolve(ctx, sc.Expression) })
 	return outcome(v, err, p, pv)
 }
 
@@ -191,7 +192,9 @@ var c08Pure = core.Mon(c08, "repeat-and-interleave", func(w *core.W, c *PureCase
 			r.SetThis(shared)
 			var v interface{}
 			var err error
-			p, pv := core.Call(func() { v, err = r.Resolve(context.Background(), t.Expression) })
+			ctx, release := hostCtxFor(t)
+			defer release()
+			p, pv := core.Call(func() { v, err = r.Resolve(ctx, t.Expression) })
 			out := outcome(v, err, p, pv)
 			for k := range shared {
 				if !own[k] {
